@@ -24,14 +24,13 @@ Options == [ t |-> {"date-1s", "date-1ns", "date", "date+1s", "expires-1s", "exp
              ccform |-> {"multi", "upper"},
              expireshdr |-> {TRUE},
              status |-> {199, 203, 302, 307, 404, 418, 500, 599},
-             vurl |-> {"otherhost", "http", "otherport", "p443", "upperhost", "otherpath", "subdomain"},
+             vurl |-> {"otherhost", "http", "otherport", "p443", "upperhost", "otherpath", "subdomain", "relpath", "empty", "schemerel"},
              ct |-> {FALSE},
              integ |-> {"other", "junk"} ]
 Kinds == DOMAIN Options
 Set1(s, k, v) == [s EXCEPT ![k] = v]
-Singles(v) == UNION { { Set1(Base(v), k, x) : x \in Options[k] } : k \in Kinds }
-Pairs(v) == UNION { UNION { { Set1(Set1(Base(v), k1, x1), k2, x2) : x1 \in Options[k1], x2 \in Options[k2] } : k2 \in Kinds \ {k1} } : k1 \in Kinds }
-Scenarios == UNION { {Base(v)} \cup Singles(v) \cup Pairs(v) : v \in Vers }
+\* Scenarios = per version the baseline, every single deviation and every pair of deviations of different kinds.
+\* (Not defined as a set: TLC evaluates constant definitions eagerly and spent 150 s normalising it; Next enumerates it.)
 
 Stateful == {"authorization", "cookie", "cookie2", "proxy-authorization", "sec-websocket-key"}
 Uncached == {"connection", "keep-alive", "proxy-connection", "trailer", "transfer-encoding", "upgrade", "authentication-control", "authentication-info",
@@ -58,7 +57,15 @@ Ok(s) == Window(s) /\ Lifetime(s) /\ SameOrigin(s) /\ Method(s) /\ NoStateful(s)
 RECURSIVE SetToSeq(_)
 SetToSeq(T) == IF T = {} THEN <<>> ELSE LET x == CHOOSE y \in T : TRUE IN <<x>> \o SetToSeq(T \ {x})
 Init == sc = Base("1b3")
-Next == sc = Base("1b3") /\ sc' \in Scenarios /\ PrintT("VEC " \o ToJson([s |-> [sc' EXCEPT !.cc = SetToSeq(sc'.cc)], ok |-> Ok(sc')]))
+KindSeq == <<"t", "life", "method", "reqhdr", "resphdr", "cc", "ccform", "expireshdr", "status", "vurl", "ct", "integ">>
+ASSUME {KindSeq[i] : i \in 1..Len(KindSeq)} = Kinds
+Next == /\ sc = Base("1b3")
+        /\ \E v \in Vers :
+             \/ sc' = Base(v)
+             \/ \E i \in 1..Len(KindSeq) : \E x \in Options[KindSeq[i]] : sc' = Set1(Base(v), KindSeq[i], x)
+             \/ \E i \in 1..Len(KindSeq) : \E j \in (i + 1)..Len(KindSeq) : \E x1 \in Options[KindSeq[i]] : \E x2 \in Options[KindSeq[j]] :
+                  sc' = Set1(Set1(Base(v), KindSeq[i], x1), KindSeq[j], x2)
+        /\ PrintT("VEC " \o ToJson([s |-> [sc' EXCEPT !.cc = SetToSeq(sc'.cc)], ok |-> Ok(sc')]))
 Spec == Init /\ [][Next]_sc
 
 \* the baseline is accepted; every condition is independently necessary (some single deviation violates it alone)
